@@ -569,7 +569,7 @@ def gen_sibling_wrappers(rng: random.Random) -> dict:
 
 def gen_api(rng: random.Random) -> dict:
     """Which spelling of the public API builds the program (all are equivalent by documentation)."""
-    return {"decorators": rng.random() < 0.3, "explicit_edges": rng.random() < 0.25, "wrap_async": rng.random() < 0.2, "siblings": rng.random() < 0.3}
+    return {"decorators": rng.random() < 0.3, "explicit_edges": rng.random() < 0.25, "wrap_async": rng.random() < 0.2, "siblings": rng.random() < 0.3, "rename_emit": rng.random() < 0.3}
 
 
 def with_api(g: dict, api: dict | None) -> dict:
@@ -593,6 +593,8 @@ def with_api(g: dict, api: dict | None) -> dict:
                 walk(nd["graph"])
             elif nd["kind"] == "fn" and api.get("wrap_async") and not nd.get("gen") and wrng.random() < 0.4:
                 nd["wrap_async"] = True
+            if nd["kind"] == "fn" and api.get("rename_emit") and nd.get("emit"):
+                nd["emit_via_rename"] = True
 
     walk(g2)
     return g2
